@@ -446,7 +446,7 @@ func TestC14Long(t *testing.T) {
 		total = 100000
 	}
 	idx := 0
-	if !want(idx) {
+	if !wantHistory(idx) {
 		return
 	}
 	em.Marker("begin", idx)
@@ -718,7 +718,29 @@ func TestC14Long(t *testing.T) {
 			tags = append(tags, k)
 		}
 	}
-	em.Emit(Rec{Idx: idx, Kind: "c14-long", Desc: map[string]any{"rpcs": total, "samples": len(samples), "max_inflight": maxInflight, "idle_samples": idleSamples, "outcomes": hist, "server_leak_notes": leakNotes},
-		Tags: tags, Coq: "C14Long " + coqList(samples)})
+	// one connection, one history; every sample is judged on its own, so the history is emitted as records of <= 2000 samples
+	nrec := (len(samples) + chunkEvents - 1) / chunkEvents
+	if nrec == 0 {
+		nrec = 1
+	}
+	for j := 0; j < nrec; j++ {
+		lo, hi := j*chunkEvents, (j+1)*chunkEvents
+		if hi > len(samples) {
+			hi = len(samples)
+		}
+		ci := chunkIdx(idx, j)
+		if !want(ci) {
+			continue
+		}
+		desc := map[string]any{"rpcs": total, "samples": len(samples), "record": fmt.Sprintf("%d/%d", j+1, nrec)}
+		if j == 0 {
+			desc = map[string]any{"rpcs": total, "samples": len(samples), "record": fmt.Sprintf("1/%d", nrec), "max_inflight": maxInflight, "idle_samples": idleSamples, "outcomes": hist, "server_leak_notes": leakNotes}
+		}
+		rtags := tags
+		if j > 0 {
+			rtags = []string{fmt.Sprintf("rpcs=%d", total), fmt.Sprintf("record=%d/%d", j+1, nrec)}
+		}
+		em.Emit(Rec{Idx: ci, Kind: "c14-long", Desc: desc, Tags: rtags, Coq: "C14Long " + coqList(samples[lo:hi])})
+	}
 	em.Marker("end", idx)
 }
